@@ -80,6 +80,7 @@ type Result struct {
 	Choices     int // decision points at which more than one task was parked
 	MaxParked   int
 	Stalls      int
+	SpinSteps   int // scheduling steps charged as busy-waiting
 	Stuck       bool
 	StuckInfo   string
 	Panics      []PanicInfo
@@ -139,6 +140,10 @@ type Sim struct {
 	exits    int
 	kick     chan struct{}
 	stalls   int
+	sameRun  int
+	spins    int
+	cpuDebt  time.Duration
+	stallTime time.Duration
 }
 
 var cur atomic.Pointer[Sim]
@@ -520,6 +525,20 @@ func (s *Sim) release(t *Task) {
 			s.trace = append(s.trace, t.ID+"@"+t.site)
 		}
 	}
+	// simulated CPU time: every scheduling step costs a little, and a task that keeps running without ever
+	// blocking while nothing else is runnable (a busy-wait loop) is charged more and more, so that a spin
+	// on a deadline terminates in simulated time instead of hanging the simulation
+	if t == s.last {
+		s.sameRun++
+	} else {
+		s.sameRun = 0
+	}
+	cost := time.Microsecond
+	if s.sameRun > 3000 {
+		cost = time.Millisecond
+		s.spins++
+	}
+	s.cpuDebt += cost
 	s.last = t
 	t.state = 0
 	t.wake <- struct{}{}
@@ -616,6 +635,12 @@ func (s *Sim) loop(root func()) {
 			break
 		}
 		normal, idle, _ := s.collect()
+		if s.cpuDebt >= 200*time.Microsecond && len(normal) > 0 {
+			d := s.cpuDebt
+			s.cpuDebt = 0
+			time.Sleep(d)
+			continue
+		}
 		if len(normal) > 0 {
 			s.quantum = 0
 			s.release(s.pick(normal))
@@ -646,7 +671,9 @@ func (s *Sim) loop(root func()) {
 				tm.Stop()
 				if s.cfg.StallP > 0 && s.rngTime.Float() < s.cfg.StallP {
 					s.stalls++
-					time.Sleep(time.Duration(1+s.rngTime.Intn(int(s.cfg.StallMax/time.Microsecond))) * time.Microsecond)
+					d := time.Duration(1+s.rngTime.Intn(int(s.cfg.StallMax/time.Microsecond))) * time.Microsecond
+					s.stallTime += d
+					time.Sleep(d)
 				}
 			case <-tm.C:
 			}
@@ -672,7 +699,7 @@ func (s *Sim) result() Result {
 	raceDisable()
 	defer raceEnable()
 	r := Result{Steps: s.steps, SimTime: time.Since(s.start), SchedHash: s.hash, Choices: s.choices,
-		MaxParked: s.maxPark, Stalls: s.stalls, Stuck: s.stuck, StuckInfo: s.stuckMsg, Trace: append([]string(nil), s.trace...)}
+		MaxParked: s.maxPark, Stalls: s.stalls, SpinSteps: s.spins, Stuck: s.stuck, StuckInfo: s.stuckMsg, Trace: append([]string(nil), s.trace...)}
 	s.mu.Lock()
 	r.Tasks = s.ntasks
 	r.Panics = append(r.Panics, s.panics...)
@@ -767,4 +794,14 @@ func AliveUnder(prefix string) []string {
 	}
 	s.mu.Unlock()
 	return out
+}
+
+// StallTotal returns how much simulated time the scheduler has spent in injected stalls so far.
+//
+//go:norace
+func StallTotal() time.Duration {
+	if s := cur.Load(); s != nil {
+		return s.stallTime
+	}
+	return 0
 }
